@@ -148,7 +148,7 @@ func c17_11(c *core.Ctx, p *core.Prog) {
 				}
 			default:
 				enc, isEnc := a.isEncCall(k)
-				if !isEnc || core.Canon(enc.Call.Args[len(enc.Call.Args)-1]) != ssa.Value(keyPar) {
+				if !isEnc || core.Canon(a.encSrc(enc)) != ssa.Value(keyPar) {
 					c.Viol(key, pos, core.FuncName(host), "the key of the inserted attribute is neither the source key nor the cipher applied to it: two attributes can be merged into one (the later insert replaces the earlier) or an attribute goes out under another's name")
 					return
 				}
